@@ -2300,6 +2300,16 @@ def _m_abs(interp, v):
 def _m_sorted(interp, v, key=None, reverse=False):
     items = interp.iterate(v)
     if contains_sym(items):
+        # a short list of numbers: insertion sort, forking on each comparison (every order is explored)
+        num = (SInt, SReal, int, float)
+        if key is None and len(items) <= 4 and all(isinstance(x, num) and not isinstance(x, bool) for x in items):
+            out = []
+            for x in items:
+                i = len(out)
+                while i > 0 and interp.truth(interp.compare(ast.Lt, x, out[i - 1])):
+                    i -= 1
+                out.insert(i, x)
+            return out[::-1] if reverse else out
         raise Undecided("sorted over symbolic values")
     return interp.native(sorted, [items], {"key": key, "reverse": reverse})
 
